@@ -320,3 +320,126 @@ Example C14_ex4_series_mon :
   mrun (series_mon ex_cfg) sm0 (snd (trace_of ex_cfg 0 0 0 [ev0] ex4)) =
   Live {| sm_w := WSome [241; 130; 129; 0] (Some 0%nat); sm_armed := false; sm_dis := false; sm_conf := false |}.
 Proof. vm_compute. reflexivity. Qed.
+
+(* ================= 8, composed: nothing but the received octets and the database are inputs ==============
+   Outstation/Full.v composes the session model with the digest computed from the octets (`frag_digest`) and the
+   database model answering the session's calls (`replay`): `fstep F st op` is one operation of a script -
+   `FRx from bc bytes` a reception, `FSleep ms` time, `FUpdate ..` a transaction of the user -, `FReach` the
+   reachable states, `fs_db` the database, `ro_out` / `ro_answers` of `frx_out F st from bc bytes` (a reception)
+   or `fevent_out F st (fs_db st) (ESleep ms)` (time) the session's observations and the database's answers in
+   that step.  Outstation/FullCorollaries.v. *)
+From Dnp3V Require Import App.Grammar Outstation.DbTypes Outstation.Database Outstation.Full.
+From Dnp3V Require Outstation.SessionC03Proofs.
+From Dnp3V Require Import Outstation.FullCorollaries.
+
+(* the steps the next theorems speak about *)
+Theorem C14_composed_reception_spec : forall F st from bc bytes,
+  fstep F st (FRx from bc bytes) =
+  ({| fs_s := ro_s (frx_out F st from bc bytes); fs_db := ro_db (frx_out F st from bc bytes) |},
+   FDigest (frag_digest bytes) (frag_rv_code bytes) :: ro_log (frx_out F st from bc bytes)).
+Proof. exact fstep_frx. Qed.
+Print Assumptions C14_composed_reception_spec.
+
+Theorem C14_composed_sleep_spec : forall F st ms,
+  fstep F st (FSleep ms) =
+  ({| fs_s := ro_s (fevent_out F st (fs_db st) (ESleep ms)); fs_db := ro_db (fevent_out F st (fs_db st) (ESleep ms)) |},
+   ro_log (fevent_out F st (fs_db st) (ESleep ms))).
+Proof. exact fstep_fsleep. Qed.
+Print Assumptions C14_composed_sleep_spec.
+
+(* a well-formed (wf_request: header parses, FIR FIN no UNS, objects parse) unicast READ (octet 1 = 1) from an
+   accepted master during the unsolicited confirm wait, the deadline beyond the settling millisecond: the database
+   is not called (fs_db unchanged, no answer computed), nothing is observed or transmitted, the wait goes on, and
+   the request is kept with its octets, sequence number and source *)
+Theorem C14_composed_read_deferred : forall F st from bytes resp n ret dl,
+  s_control (fs_s st) = CUnsolWait resp n ret dl -> (s_now (fs_s st) + settle_ms < dl)%Z ->
+  accepted_master (f_o F) from -> wf_request bytes -> nth 1 bytes 0 = 1 ->
+  let st' := fst (fstep F st (FRx from None bytes)) in
+  fs_db st' = fs_db st /\
+  ro_answers (frx_out F st from None bytes) = [] /\ ro_out (frx_out F st from None bytes) = [] /\
+  s_control (fs_s st') = CUnsolWait resp n ret dl /\
+  exists x, s_deferred (fs_s st') =
+            Some {| df_bytes := bytes; df_seq := nth 0 bytes 0 mod 16; df_from := from; df_iin2 := x |}.
+Proof. exact frx_read_deferred. Qed.
+Print Assumptions C14_composed_read_deferred.
+
+(* the series ends by its confirm timeout with a READ kept: no retry; the READ is selected (reset + the read
+   headers of the kept octets: select_deferred) and written (db_write_response) in THIS step, from `fs_db st`, the
+   database as it is now - not as it was at the reception; the transmitted fragment carries exactly the octets
+   written, FIR set, the request's sequence number, to its source *)
+Theorem C14_composed_deferred_read_served_timeout : forall F st resp n ret dl df ms,
+  SessionC03Proofs.FReach F st ->
+  s_control (fs_s st) = CUnsolWait resp n ret dl -> s_deferred (fs_s st) = Some df ->
+  (dl <= s_now (fs_s st) + ms)%Z ->
+  let ro := fevent_out F st (fs_db st) (ESleep ms) in
+  ~ In FReplayError (ro_log ro) ->
+  let d0 := if n then fs_db st else db_reset (fs_db st) in
+  let sel := select_deferred d0 (request_headers (df_bytes df)) in
+  let w := db_write_response (fst (fst sel)) (N.of_nat (o_sol_tx (f_o F)) - 4) in
+  let body := fst (fst (snd w)) in
+  let has_events := snd (fst (snd w)) in
+  let complete := snd (snd w) in
+  exists con iin1 iin2 tail more,
+    ro_answers ro = AIin2 (snd (fst sel)) :: AWrite complete has_events body :: evinfo_answer_of (fst w) :: more /\
+    ro_out ro =
+      (OAt (Z.max dl (s_now (fs_s st))) :: OInfo (IUnsolTimeout (ctl_seq (r_ctl resp)) false)
+       :: (if n then [] else [ODb DbReset])) ++
+      [ODb DbDeferredSelect; ODb DbWrite; ODb DbEvinfo;
+       OTx (df_from df) ([ctl_byte true complete con false (df_seq df); 129; iin1; iin2] ++ body)] ++ tail.
+Proof. exact fsleep_deferred_read_served. Qed.
+Print Assumptions C14_composed_deferred_read_served_timeout.
+
+(* the series ends by the CONFIRM of the unsolicited response (octet 1 = 0, UNS set, its sequence number): the
+   written events are released, then the same *)
+Theorem C14_composed_deferred_read_served_confirm : forall F st from bytes resp n ret dl df,
+  SessionC03Proofs.FReach F st ->
+  s_control (fs_s st) = CUnsolWait resp n ret dl -> s_deferred (fs_s st) = Some df ->
+  accepted_master (f_o F) from -> wf_request bytes ->
+  nth 1 bytes 0 = 0 -> N.testbit (nth 0 bytes 0) 4 = true -> nth 0 bytes 0 mod 16 = ctl_seq (r_ctl resp) ->
+  let ro := frx_out F st from None bytes in
+  ~ In FReplayError (ro_log ro) ->
+  let d0 := if n then fs_db st else fst (db_clear_written (fs_db st)) in
+  let sel := select_deferred d0 (request_headers (df_bytes df)) in
+  let w := db_write_response (fst (fst sel)) (N.of_nat (o_sol_tx (f_o F)) - 4) in
+  let body := fst (fst (snd w)) in
+  let has_events := snd (fst (snd w)) in
+  let complete := snd (snd w) in
+  exists con iin1 iin2 tail more,
+    ro_answers ro = AIin2 (snd (fst sel)) :: AWrite complete has_events body :: evinfo_answer_of (fst w) :: more /\
+    ro_out ro =
+      (OInfo (IUnsolConfirmed (ctl_seq (r_ctl resp))) :: (if n then [] else [ODb DbClearWritten])) ++
+      [ODb DbDeferredSelect; ODb DbWrite; ODb DbEvinfo;
+       OTx (df_from df) ([ctl_byte true complete con false (df_seq df); 129; iin1; iin2] ++ body)] ++ tail.
+Proof. exact frx_confirm_deferred_read_served. Qed.
+Print Assumptions C14_composed_deferred_read_served_confirm.
+
+(* non-vacuity (vm_compute in FullCorollaries): a counter with value 10; a class 0 READ during the wait for the
+   confirmation of the start-up response: nothing happens; the user sets the counter to 99; the timeout (or the
+   CONFIRM `D0 00`) ends the series and the answer carries 99 - and 10 when the update is left out *)
+Example C14_composed_instance_deferred :
+  SessionC03Proofs.FReach cy_F cy_waiting /\ accepted_master (f_o cy_F) 1 /\ wf_request cy_rd /\
+  s_control (fs_s cy_waiting) =
+    CUnsolWait {| r_ctl := 240; r_fn := 130; r_iin1 := 128; r_iin2 := 0; r_size := 0 |} true (Some 0%nat) 5000 /\
+  s_now (fs_s cy_waiting) = 2%Z /\
+  ro_out (frx_out cy_F cy_waiting 1 None cy_rd) = [] /\ fs_db cy_deferred = fs_db cy_waiting /\
+  s_deferred (fs_s cy_deferred) = Some {| df_bytes := cy_rd; df_seq := 1; df_from := 1; df_iin2 := 0 |} /\
+  SessionC03Proofs.has_replay_error (snd (fstep cy_F cy_waiting (FRx 1 None cy_rd))) = false.
+Proof. exact ex_frx_read_deferred. Qed.
+
+Example C14_composed_instance_served :
+  SessionC03Proofs.FReach cy_F cy_updated /\
+  SessionC03Proofs.has_replay_error (snd (fstep cy_F cy_updated (FSleep 5000))) = false /\
+  ro_out (fevent_out cy_F cy_updated (fs_db cy_updated) (ESleep 5000)) =
+    [OAt 5000; OInfo (IUnsolTimeout 0 false); ODb DbDeferredSelect; ODb DbWrite; ODb DbEvinfo;
+     OTx 1 [193; 129; 128; 0; 20; 1; 1; 0; 0; 0; 0; 1; 99; 0; 0; 0];
+     ODb DbEvinfo; OTx 1 [241; 130; 128; 0]; OInfo (IEnterUnsolWait 1)] /\
+  ro_out (fevent_out cy_F cy_deferred (fs_db cy_deferred) (ESleep 5000)) =
+    [OAt 5000; OInfo (IUnsolTimeout 0 false); ODb DbDeferredSelect; ODb DbWrite; ODb DbEvinfo;
+     OTx 1 [193; 129; 128; 0; 20; 1; 1; 0; 0; 0; 0; 1; 10; 0; 0; 0];
+     ODb DbEvinfo; OTx 1 [241; 130; 128; 0]; OInfo (IEnterUnsolWait 1)] /\
+  wf_request [208; 0] /\
+  SessionC03Proofs.has_replay_error (snd (fstep cy_F cy_updated (FRx 1 None [208; 0]))) = false /\
+  ro_out (frx_out cy_F cy_updated 1 None [208; 0]) =
+    [OInfo (IUnsolConfirmed 0); ODb DbDeferredSelect; ODb DbWrite; ODb DbEvinfo;
+     OTx 1 [193; 129; 128; 0; 20; 1; 1; 0; 0; 0; 0; 1; 99; 0; 0; 0]].
+Proof. exact ex_deferred_read_served. Qed.
